@@ -46,6 +46,26 @@ Theorem C17_compressed_only_if : forall sniff ctm h0 accept ae ops f,
 Proof. exact compressed_only_if. Qed.
 Print Assumptions C17_compressed_only_if.
 
+(* "The content type matches": the expression is applied to the COMPLETE first value of the
+   Content-Type header ([hget] = http.Header.Get; parameters, spacing and case as the upstream wrote
+   them), at the first non-informational WriteHeader / first Write, and to nothing else. *)
+Theorem C17_decision_uses_full_content_type : forall sniff ctm c g, is_1xx c = false -> g_sel g = None ->
+  g_sel (grw_step sniff ctm (WriteHeader c) g)
+  = Some (beq (hget (r_hdr (g_rec g)) H_CE) [] && ctm (hget (r_hdr (g_rec g)) H_CT)).
+Proof. exact decision_uses_full_content_type. Qed.
+Print Assumptions C17_decision_uses_full_content_type.
+
+Theorem C17_hget_is_first_complete_value : forall h k v vs, hvals h k = Some (v :: vs) -> hget h k = v.
+Proof. exact hget_first. Qed.
+Print Assumptions C17_hget_is_first_complete_value.
+
+Theorem C17_parameters_are_matched : forall sniff,
+  let run ct := o_fed (handler sniff (beq (bs "text/plain")) [] [] [bs "gzip"] [SetHeader H_CT (bs ct); Write (bs "hello")]) in
+  run "text/plain; charset=utf-8"%string = None /\ run "text/plain ; q"%string = None /\ run "TEXT/PLAIN"%string = None
+  /\ run "text/plain"%string = Some (bs "hello").
+Proof. exact parameters_are_matched. Qed.
+Print Assumptions C17_parameters_are_matched.
+
 (* A compressed response goes only to a client that accepts gzip in the RFC 9110 12.5.3 reading
    (some gzip / x-gzip entry with a non-zero weight, else "*"): for EVERY request -- no
    known-finding region is left. *)
